@@ -19,6 +19,13 @@ def run(ctx):
     LK.k8_strategy_parent_pairing(ctx, modules=("bijection", "specification_extrator"))
     LK.k9_index_order(ctx)
     LK.k11_extractor_start(ctx, K)
+    from ..engines import bijplumb as B
+    B.b1_permutation_convention(ctx, only_sibling=True)
+    B.b4_matching_complete(ctx, classes=(("ParallelSpecFinder", "_find"),))
+    B.b8_two_sided_acceptance(ctx)
+    ctx.floor("B1", 1)
+    ctx.floor("B4", 3)
+    ctx.floor("B8", 2)
     ctx.floor("K11", 1)
     ctx.floor("K8", 4)
     ctx.floor("K9", 2)
